@@ -47,6 +47,8 @@ def cases(tier, seed, rng):
                 if force > 1 and v not in cube[::2]:
                     continue
                 out.append(Case(['vgate [%d,%d,%d] = = %s %d' % (v[0], v[1], v[2], mode, force)]))
+                if mode != 'ow' and (abs(v[0] - L[0]) + abs(v[1] - L[1]) + abs(v[2] - L[2])) <= 2:
+                    out.append(Case(['vgate2 [%d,%d,%d] = = %s %d' % (v[0], v[1], v[2], mode, force)]))
     # files without an id attribute: required from the id-gate version on
     for v in cube + [(L[0], L[1] - 1, 100), (L[0], L[1] - 1, 250), (L[0], 0, 0)]:
         for force in (0, 1):
